@@ -17,6 +17,8 @@ TRUSTED = [
     'validated against the live interpreter on every run (exception class of s % v for a battery of values v)',
     'Generated/PyFmtInfo.v: _info tables and SSIZE_MAX of /repo, regenerated every run; C12_info_sync proves they are the tables the proofs use',
     'extraction (ExtrOcamlBasic only) + ocaml/driver.ml',
+    'tools/gen/gen_fmtpython_src.py: python ast -> Gallina translation of FormatString.__init__ / add_argument / Conversion.__init__ '
+    '(Generated/FmtPythonSrc.v, rules in its docstring) and its target vocabulary Model/FmtPythonPy.v; C12_source_tie_* prove the translation equal to Model/FmtPython.v',
     'the theorems relate two models; their weight rests on both correspondences',
 ]
 ASSUME = ['values: int, finite float, str, None, tuple, dict with str keys (no user classes with __index__/__float__/__getitem__)',
